@@ -351,3 +351,48 @@ void xz_fix_header_crcs(vbuf *b)
 		}
 	}
 }
+
+
+// Walk the Blocks of the first Stream (as far as the Block Headers carry a Compressed Size) and, in the k-th Block
+// Header that has a BCJ filter with a 4-byte start offset and an alignment above 1, make that offset misaligned
+// (an unsupported option: the header is well-formed, its CRC32 is fixed, the filter's memory usage is known, and
+// only the decoder's initialisation refuses it). Returns the index of the Block changed, or -1.
+static size_t rd_vli(const uint8_t *p, size_t n, size_t *pos, uint64_t *v)
+{
+	*v = 0; unsigned sh = 0;
+	while (*pos < n && sh < 63) { uint8_t b = p[(*pos)++]; *v |= (uint64_t)(b & 0x7F) << sh; if (!(b & 0x80)) return 1; sh += 7; }
+	return 0;
+}
+
+int xz_misalign_bcj_offset(vbuf *d, vrng *r)
+{
+	if (d->n < 24 || memcmp(d->p, "\xfd" "7zXZ", 6) != 0) return -1;
+	static const unsigned chk_size[16] = { 0, 4, 4, 4, 8, 8, 8, 16, 16, 16, 32, 32, 32, 64, 64, 64 };
+	const size_t csz = chk_size[d->p[7] & 0x0F];
+	size_t off = 12; int cand[64]; size_t cand_off[64], cand_prop[64]; unsigned nc = 0; int bi = 0;
+	while (off + 8 < d->n && d->p[off] != 0 && nc < 64) {
+		size_t hs = ((size_t)d->p[off] + 1) * 4;
+		if (off + hs > d->n) break;
+		uint8_t flags = d->p[off + 1];
+		size_t pos = off + 2; uint64_t comp = 0, tmp; bool has_comp = flags & 0x40;
+		if (has_comp && !rd_vli(d->p, off + hs, &pos, &comp)) break;
+		if ((flags & 0x80) && !rd_vli(d->p, off + hs, &pos, &tmp)) break;
+		unsigned nf = (flags & 3) + 1;
+		for (unsigned f = 0; f < nf; ++f) {
+			uint64_t id, ps;
+			if (!rd_vli(d->p, off + hs, &pos, &id) || !rd_vli(d->p, off + hs, &pos, &ps)) { nf = 0; break; }
+			if (id >= 0x05 && id <= 0x0B && ps == 4 && pos + 4 <= off + hs - 4) { cand[nc] = bi; cand_off[nc] = off; cand_prop[nc] = pos; ++nc; }
+			pos += (size_t)ps;
+		}
+		if (!has_comp) break;
+		off += hs + (size_t)((comp + 3) & ~UINT64_C(3)) + csz;
+		++bi;
+	}
+	if (!nc) return -1;
+	unsigned k = vrng_below(r, nc);
+	size_t ho = cand_off[k], hs = ((size_t)d->p[ho] + 1) * 4;
+	d->p[cand_prop[k]] |= 1;   // every BCJ filter but x86 needs an even start offset
+	uint32_t c = lzma_crc32(d->p + ho, hs - 4, 0);
+	for (int i = 0; i < 4; ++i) d->p[ho + hs - 4 + (size_t)i] = (uint8_t)(c >> (8 * i));
+	return cand[k];
+}
